@@ -651,6 +651,8 @@ class Repo:
                 continue
             if len(now) == len(was) and all(x == y or (x not in was and y not in now) for x, y in zip(now, was)):
                 continue        # renamed in place
+            if len(now) < len(was):
+                continue        # a parameter was REMOVED: not a re-arrangement of the same interface - judged as written
             out[q] = (was, now)
         return out
 
